@@ -7,7 +7,7 @@ git -C /repo archive HEAD | tar -x -C $d
 props="$@"; [ -z "$props" ] && props="C01 C02 C03 C04 C05 C06 C07 C08 C09 C10 C11 C12 C13 C14 C15 C16 C17 C18 C19 C20"
 fired=""
 for p in $props; do
-  out=$(cd /verif && MINA_REPO=$d ./verif check $p 2>&1); rc=$?
+  out=$(cd ${VERIF_DIR:-/verif} && MINA_REPO=$d ./verif check $p 2>&1); rc=$?
   if [ $rc -ne 0 ]; then fired="$fired $p"; echo "$out" | grep -E "^  C" | cut -c1-${W:-260} | head -${N:-2}; fi
 done
 echo "== $id fired:$fired"
